@@ -267,6 +267,14 @@ theorem combine_unique (ups cores downs : List Seg) (src dst : Nat) :
   simp only [Bool.false_eq_true, if_false]
   exact filterDuplicates_unique _
 
+/-- soundness of modelling the SHA-256 fingerprint by the interface list itself: the code's
+`filterDuplicates`, keyed by any fingerprint function `fp` that is injective on the interface
+lists of the paths at hand (no hash collision among them), returns exactly the model's result -/
+theorem fingerprint_sound {F : Type} [DecidableEq F] (fp : List Iface → F) (ps : List Path)
+    (hinj : ∀ p ∈ ps, ∀ q ∈ ps, fp p.intfs = fp q.intfs → p.intfs = q.intfs) :
+    filterDuplicatesF fp ps = filterDuplicates ps :=
+  filterDuplicatesF_eq fp ps hinj
+
 /-! ### order of the result -/
 
 /-- the result of `Combine` (either mode) is ordered by non-decreasing weight -/
